@@ -29,8 +29,9 @@ META = dict(
     bounds=['task pattern, cycle pattern, two recorded names: symbolic '
             'strings, length 1..3 (quick: pattern <= 2, names <= 3), '
             'alphabet {a,A,b,_,%,*,?,[}', 'flow sets subsets of {1,2}, filter '
-            'None/1/2/3', 'output queries: selector in {x, finished, None}, '
-            'recorded outputs 3 shapes'],
+            'None/1/2/3', 'output queries: selector in {None, x, finished, '
+            'finish, the x, e, fin} (the last three with flow set {1} only), '
+            'recorded outputs 4 shapes'],
     stubs=['sqlite connection -> in-memory row list + model of the WHERE '
            'clause (== / LIKE [ESCAPE] / GLOB), validated against real '
            'sqlite for all strings of length <= 2 over the alphabet'],
@@ -235,8 +236,11 @@ FLOWSETS = [set(), {1}, {2}, {1, 2}]
 OUTS = ['{"submitted": "submitted", "started": "started", "x": "the x"}',
         '{"submitted": "submitted", "started": "started", '
         '"succeeded": "succeeded"}',
-        '["submitted", "started", "failed", "the x"]']
-SELECTORS = [None, 'x', 'finished', 'the x']
+        '["submitted", "started", "failed", "the x"]',
+        # custom outputs whose names are fragments of "finished"
+        '{"submitted": "submitted", "started": "started", "e": "msg e", '
+        '"failed": "failed"}']
+SELECTORS = [None, 'x', 'finished', 'the x', 'finish', 'e', 'fin']
 
 
 def flow_query(f1: int, f2: int, want_flow: int, o1: int, o2: int,
@@ -244,12 +248,13 @@ def flow_query(f1: int, f2: int, want_flow: int, o1: int, o2: int,
     """
     pre: sl(sel=sel, by_msg=by_msg)
     pre: 0 <= f1 < 4 and 0 <= f2 < 4 and 0 <= want_flow <= 3
-    pre: 0 <= o1 < 3 and 0 <= o2 < 3 and 0 <= sel < 4
+    pre: 0 <= o1 < 4 and 0 <= o2 < 4 and 0 <= sel < 7
+    pre: sel < 4 or (f1 == 1 and f2 == 1 and want_flow <= 1)
     post: _
     """
     f1, f2 = fork_int(f1, 0, 3), fork_int(f2, 0, 3)
-    o1, o2 = fork_int(o1, 0, 2), fork_int(o2, 0, 2)
-    sel = fork_int(sel, 0, 3)
+    o1, o2 = fork_int(o1, 0, 3), fork_int(o2, 0, 3)
+    sel = fork_int(sel, 0, 6)
     wf = fork_int(want_flow, 0, 3)
     by_msg = True if by_msg else False
     rows = [dict(name='foo', cycle='1', outputs=OUTS[o1], status='running',
@@ -273,7 +278,7 @@ def flow_query(f1: int, f2: int, want_flow: int, o1: int, o2: int,
             hit = True
         elif by_msg:
             hit = selector in msgs
-        elif selector == 'finished':
+        elif selector in ('finished', 'finish'):
             hit = 'succeeded' in trigs or 'failed' in trigs
         else:
             hit = selector in trigs
@@ -292,7 +297,7 @@ def OBLIGATIONS(tier):
                       slice=dict(sl_)))
         obs.append(Ob(f'cycle_query[plen={plen}]', 'cycle_query', timeout=t,
                       slice=dict(sl_)))
-    for sel in range(4):
+    for sel in range(7):
         for by_msg in (False, True):
             obs.append(Ob(f'flow_query[sel={sel},msg={by_msg}]', 'flow_query',
                           timeout=t, slice={'sel': sel, 'by_msg': by_msg}))
